@@ -836,7 +836,9 @@ def run_servers(ctl: explorer.Ctl, cfg: Dict[str, Any]) -> Dict[str, Any]:
                     if rid is not None:
                         wire["id"] = rid
                     counters["probes-judged"] += 1
-                    ctx = {"probe": probe["method"], "server_position": position, "server_kind": profs[j]["kind"]}
+                    fam = probe["method"] if not probe["method"].startswith("custom/") else (
+                        "custom-method:throw-away-only" if probe["method"] == SENTINEL_METHOD else "custom-method")
+                    ctx = {"probe": fam, "server_position": position}
 
                     def bad(cls, msg, **extra):
                         viol.append({"sig": {"class": cls, **ctx, **extra},
